@@ -164,6 +164,14 @@ def parseEntry (s : Name) : Option Entry :=
     | some l => if l == dots then some ⟨cs.dropLast, true⟩ else some ⟨cs, false⟩
     | none => some ⟨[], false⟩
 
+/-- All entries of a search path in their parsed form; `none` when one of them is outside the model. -/
+def parsePath : List Name → Option (List Entry)
+  | [] => some []
+  | d :: rest =>
+    match parseEntry d, parsePath rest with
+    | some e, some es => some (e :: es)
+    | _, _ => none
+
 /-- `ms.AddPath(p)` on `ms.Path` (assuming `Path` is only ever changed through `AddPath`, so that
 `pathMap` is its membership): split at `:`, append what is new. -/
 def addPath (path : List Name) (p : Name) : List Name :=
@@ -178,6 +186,11 @@ inductive Found where
   /-- a path string outside the modelled (clean relative) form was needed -/
   | outside
   deriving Repr, BEq, DecidableEq
+
+/-- The file name a result carries, if any. -/
+def Found.chosen : Found → Option Name
+  | .file n _ => some n
+  | _ => none
 
 /-- The loop over `ms.Path` in `findFile`. -/
 def searchPath (root : FsNode) (name : Name) (path0 : List Name) : List Name → Found
